@@ -45,7 +45,7 @@ TRUSTED = ["scipy.spatial.KDTree.count_neighbors (chord <= r, cumulative / per-b
            "np.argmin first minimum", "np.diff", "build_trees contract (C10)", "Metadata invariant of every patch (C12)",
            "angular distance is a metric on the sphere (symmetry, triangle inequality)", "iter_unordered contract (C05)"]
 NOT_DECIDED = ["floating-point ties between a pair separation and a scale limit; exactness of 10**log10(x)",
-               "get_ang_bins deductively (log10/linspace/unique/sort pipeline): contract assumed in AngularTree.count, checked by the bounded battery",
+               "ang_min = 0 (log10(0) is outside the real-number model); get_ang_bins is proved for positive limits",
                "iter_patch_id_pairs beyond 5 patches", "KD-tree internals"]
 ASSUMPTIONS = []
 
@@ -258,7 +258,44 @@ class KDResult:
 
 
 # ---------------------------------------------------------------------------------------------------------
-# small helpers: logarithmic_mid, parse_ang_limits
+# small helpers: get_ang_bins, logarithmic_mid, parse_ang_limits
+# ---------------------------------------------------------------------------------------------------------
+
+@unit(P, "get_ang_bins", fuc=["yaw.catalog.trees:get_ang_bins"], cases=[dict(weighted=w) for w in (False, True)],
+      trusted=["np.unique", "np.sort of a sorted array", "np.linspace", "10**log10(x) = x over the reals"])
+def u_ang_bins(ctx, weighted):
+    """the contract AngularTree.count relies on: the fine-bin edges are positive and strictly increasing and every scale limit
+    (positive limits; ang_min = 0 is outside the real-number model) is one of them - for any number of scales, with and without
+    the extra logarithmic bins for separation weighting"""
+    T = mod("yaw.catalog.trees")
+    S = ctx.fresh_int("num_scales", lo=1, size=True)
+    rng = SArr.fresh(ctx, "ang_range", (S, 2), "f", register=True)
+    s = bv("s")
+    re_ = rng._elem
+    ctx.assume(forall([s], z3.Implies(z3.And(s >= 0, s < S.t), z3.And(re_(s, z3.IntVal(0)) > 0, re_(s, z3.IntVal(0)) < re_(s, z3.IntVal(1)))),
+                      patterns=[re_(s, z3.IntVal(0))]), "contract:parse_ang_limits (0 < ang_min < ang_max)")
+    res_w = ctx.fresh_int("weight_res", lo=1)
+    alpha = ctx.fresh_real("weight_scale") if weighted else None
+    name = "C01/get_ang_bins"
+    ctx.canary()
+    out = expect_no_exception(ctx, call(T.get_ang_bins, rng, alpha, res_w), name)
+    m = out.shape[0]
+    t, u = ctx.fresh_int("t", lo=0), ctx.fresh_int("u", lo=0)
+    ctx.assume(z3.And(t.t < u.t, u.t < to_term(m)), "post:two arbitrary edges")
+    ctx.check(f"{name}/post:strictly_increasing_and_positive", SBool(z3.And(out._elem(t.t) < out._elem(u.t), out._elem(t.t) > 0)))
+    q, c = ctx.fresh_int("q", lo=0), ctx.fresh_int("c", lo=0, hi=1)
+    ctx.assume(q.t < S.t, "post:arbitrary scale limit")
+    # witness: the position of the limit in the array handed to np.unique, mapped through unique's `at`
+    mu, val, at, src = ctx.ghost["last_unique_general"]
+    pos = 2 * q.t + c.t + ((res_w.t + 1) if weighted else 0)
+    g = at(pos)
+    ctx.check(f"{name}/post:every_limit_is_an_edge", SBool(z3.And(g >= 0, g < to_term(m), out._elem(g) == re_(q.t, c.t))),
+              detail="ang_min and ang_max of every scale must be fine-bin edges, otherwise the nearest-edge lookup takes a neighbouring bin")
+    ctx.check(f"{name}/post:at_least_two_edges", SBool(to_term(m) >= 2))
+
+
+# ---------------------------------------------------------------------------------------------------------
+# logarithmic_mid, parse_ang_limits
 # ---------------------------------------------------------------------------------------------------------
 
 @unit(P, "logarithmic_mid", fuc=["yaw.catalog.trees:logarithmic_mid"])
